@@ -242,6 +242,8 @@ def rule_shared_helpers(rep, eng_helpers, syn):
 
 
 MUTANTS = [
+    ('float-constant-at-stream-precision', 'src/synthesiser/Synthesiser.cpp', '''            out << "RamFloat(" << std::setprecision(std::numeric_limits<RamFloat>::max_digits10)
+                << constant.getValue() << ")";''', '''            out << "RamFloat(" << constant.getValue() << ")";''', 'R6'),
     ('generated-less-casts-by-position', 'src/synthesiser/Relation.cpp', '''                std::size_t attrib = ind[i];
                 const auto& typecast = typecasts[attrib];
 
@@ -292,6 +294,33 @@ MUTANTS = [
 ]
 
 
+def rule_float_literals(rep, syn, rel):
+    """R6: a floating-point value printed into generated code carries its own precision manipulator.  Emitters also run on auxiliary
+    string streams (index bounds), so the precision set once on the main stream is not enough."""
+    n = 0
+    for u in (syn, rel):
+        for f in u.functions:
+            for m in f.walk():
+                if not (m['k'] == 'CXXOperatorCallExpr' and m.get('op') == '<<'):
+                    continue
+                a = call_args(m)
+                if len(a) != 2 or strip(a[1], casts=True).get('t', '').replace('const ', '') not in ('float', 'double', 'souffle::RamFloat'):
+                    continue
+                n += 1
+                ok, lhs = False, strip(a[0], casts=True)
+                while lhs.get('k') == 'CXXOperatorCallExpr' and lhs.get('op') == '<<':
+                    la = call_args(lhs)
+                    r = strip(la[1], casts=True)
+                    if (is_call(r, 'setprecision') and any(x.get('name') == 'max_digits10' or x.get('member') == 'max_digits10' for x in walk(r))) \
+                            or (r.get('k') == 'DeclRefExpr' and r.get('name') == 'hexfloat'):
+                        ok = True
+                    lhs = strip(la[0], casts=True)
+                rep.ob('R6-float-literal-precision', '%s/%s' % (f.name, expr_key(a[1])[:40]), ok, f.loc(m),
+                       '' if ok else 'a float value is streamed into generated code at the stream\'s current precision (6 digits on the string streams '
+                       'used for index bounds): the compiled program computes with a different constant than the interpreter')
+    rep.floor('R6-float-emissions', n, 1)
+
+
 def analyse(rep):
     jobs = [
         ('src/interpreter/Engine.cpp', r'interpreter/Engine\.cpp$|BinaryConstraintOps\.h$|src/AggregateOp\.h$',
@@ -318,6 +347,7 @@ def analyse(rep):
     if T is not None:
         C24.check_tables(rep, T, C24.declared_functors(fop, rep), C24.declared_constraints(eng, rep), pid_rules=('R1', 'R2'))
     rule_index_typing(rep, syn, rel)
+    rule_float_literals(rep, syn, rel)
     helpers = {m.get('cn') for f in eng.functions for m in f.walk() if is_call(m) and (m.get('callee') or '').startswith('souffle::evaluator::')}
     helpers |= {'lxor_infix' for f in eng.functions for m in f.walk() if m['k'] in ('CXXTemporaryObjectExpr', 'CXXConstructExpr') and m.get('cn') == 'lxor_infix'}
     rule_shared_helpers(rep, helpers, syn)
